@@ -647,7 +647,11 @@ def infer_matrix(t):
         rk = [dict(tb['row'][1])[x] for x in tb['key']]
         # TypeCheck.scala: (!product && table key isPrefixOf row key) || (one interval key over the first row key type)
         interval = len(rk) == 1 and bool(lk) and isinstance(rk[0], tuple) and rk[0][0] == 'Interval' and rk[0][1] == lk[0]
-        if not interval and (product or len(rk) > len(lk) or lk[:len(rk)] != rk):
+        prefix = len(rk) <= len(lk) and lk[:len(rk)] == rk
+        if not interval and prefix and product:
+            raise IllTyped(f'{k}: product=True needs a single interval key over the first row key type',
+                           'annotate-rows-table-product-without-interval-key')
+        if not interval and not prefix:
             raise IllTyped(f'{k}: table key {[show(x) for x in rk]} does not match row key {[show(x) for x in lk]} '
                            f'(engine TypeCheck: (!product && key isPrefixOf rowKey) || single interval key)',
                            'annotate-rows-table-key-not-prefix-nor-single-interval')
